@@ -1,7 +1,7 @@
 #!/bin/bash
 # usage: tools/parallel_sweep.sh <seed>   -- runs ALL quick checks at the same time (contention test)
 SEED=$1
-cd /verif
+cd "$(dirname "$0")/.."
 for id in $(jq -r '.checks[].property_id' MANIFEST.json); do
   ( t0=$(date +%s); out=$(VERIF_SEED=$SEED ./check $id quick 2>&1); rc=$?; echo "$id seed=$SEED par rc=$rc $(( $(date +%s)-t0 ))s :: $(echo "$out" | grep -E 'VIOLATION|INCONCLUSIVE' | head -2 | cut -c1-200 | tr '\n' ' ')" ) &
 done
